@@ -92,9 +92,9 @@ def corpus():
 
 
 def compare(rep, cases, drv, har):
-    model = common.run_lines(drv, cases, args=["dstring"])
-    spec = common.run_lines(drv, cases, args=["dstring-spec"])
-    impl = common.run_lines(har, cases)
+    model = common.run_lines_par(drv, cases, args=["dstring"])
+    spec = common.run_lines_par(drv, cases, args=["dstring-spec"])
+    impl = common.run_lines_par(har, cases)
     bad = []
     for c, m, s, i in zip(cases, model, spec, impl):
         why = None
